@@ -473,8 +473,14 @@ func (e *Engine) checkObligation(s *State, id string, cond *Term) {
 		var syms []*Term
 		var who string
 		var cm *CachedModel
+		// 0. finest cut (variables only): only its unsat answer is used
+		if fine := append(SliceVars(s.pcTerms(), neg), neg); len(fine) < pcLen(s)+1 {
+			if fv, _, _, fwho := s.pf.CheckSyms(fine, e.Cfg.AssertMs/2, false); fv == Unsat {
+				v, who = Unsat, fwho+"+varslice"
+			}
+		}
 		sliced := append(Slice(s.pcTerms(), neg), neg)
-		if len(sliced) < pcLen(s)+1 {
+		if v != Unsat && len(sliced) < pcLen(s)+1 {
 			v, m, syms, who = s.pf.CheckSyms(e.withEvalsIn(s, sliced), e.Cfg.AssertMs, true)
 			if v == Sat && (s.model == nil || NoModelReuse) {
 				v = Unknown // a model of the cone alone proves nothing without a model of the rest: ask in full
@@ -499,6 +505,9 @@ func (e *Engine) checkObligation(s *State, id string, cond *Term) {
 				}
 			}
 			who += "+slice"
+		}
+		if v == Sat && cm != nil && !modelSatisfies(cm, s.pcTerms()) {
+			cm = nil // the combined model does not extend to the whole path condition: ask in full
 		}
 		if v == Unknown || (v == Sat && cm == nil) {
 			asserts := append(s.pcTerms(), neg)
@@ -572,6 +581,13 @@ func (e *Engine) scenario(s *State, cm *CachedModel, ob string) *Scenario {
 	// abstract address strings -> valid bech32 of the bytes the model decodes them to
 	rename := map[string]string{}
 	canonical := map[string]bool{}
+	type addrInfo struct {
+		strT   *Term
+		strV   string
+		bytesV string
+	}
+	var addrs []addrInfo
+	seenStr := map[string]bool{}
 	for i, en := range s.W.Evals {
 		if strings.HasPrefix(en.Tag, "addr|") && en.Kind == "app" && i+1 < len(s.W.Evals) {
 			str, ok1 := evalStr(i)
@@ -581,6 +597,99 @@ func (e *Engine) scenario(s *State, cm *CachedModel, ob string) *Scenario {
 				// is this spelling the canonical one (the value of AccAddress.String()) in the model?
 				if cv, ok := cm.Eval(App("b32enc", s.W.Evals[i+1].T)); ok && cv.S != nil && *cv.S == str {
 					canonical[str] = true
+				}
+				if !seenStr[str] {
+					seenStr[str] = true
+					addrs = append(addrs, addrInfo{s.W.Evals[i].T, str, by})
+				}
+			}
+		}
+	}
+	// the model orders address strings by the abstract order `strlt`; real bech32 strings of the model's
+	// bytes sort differently, so the byte values are permuted among the addresses until both orders agree
+	byteSub := map[string]string{}
+	if n := len(addrs); n >= 2 && n <= 8 {
+		dupBytes := false
+		bs := map[string]bool{}
+		for _, a := range addrs {
+			if bs[a.bytesV] {
+				dupBytes = true
+			}
+			bs[a.bytesV] = true
+		}
+		less := make([][]bool, n)
+		any := false
+		for i := range addrs {
+			less[i] = make([]bool, n)
+			for j := range addrs {
+				if i != j {
+					if v, ok := cm.Eval(App("strlt", addrs[i].strT, addrs[j].strT)); ok && v.B != nil && *v.B {
+						less[i][j] = true
+						any = true
+					}
+				}
+			}
+		}
+		if any && !dupBytes {
+			// topological order of the known relations
+			var ord []int
+			used := make([]bool, n)
+			for len(ord) < n {
+				pick := -1
+				for i := 0; i < n && pick < 0; i++ {
+					if used[i] {
+						continue
+					}
+					ok := true
+					for j := 0; j < n; j++ {
+						if !used[j] && j != i && less[j][i] {
+							ok = false
+						}
+					}
+					if ok {
+						pick = i
+					}
+				}
+				if pick < 0 {
+					break
+				}
+				used[pick] = true
+				ord = append(ord, pick)
+			}
+			if len(ord) == n {
+				reals := make([]string, n)
+				for i, a := range addrs {
+					reals[i] = Bech32Encode("jkl", []byte(a.bytesV))
+				}
+				idx := make([]int, n)
+				for i := range idx {
+					idx[i] = i
+				}
+				sort.Slice(idx, func(x, y int) bool { return reals[idx[x]] < reals[idx[y]] })
+				for k, ai := range ord {
+					nb := addrs[idx[k]].bytesV
+					if nb != addrs[ai].bytesV {
+						byteSub[addrs[ai].bytesV] = nb
+					}
+					rename[addrs[ai].strV] = Bech32Encode("jkl", []byte(nb))
+				}
+			}
+		}
+	}
+	subBytes := func(b string) string {
+		if nb, ok := byteSub[b]; ok {
+			return nb
+		}
+		return b
+	}
+	if len(byteSub) > 0 {
+		for tag, v := range sc.Nondet {
+			if mm, ok := v.(map[string]interface{}); ok {
+				if hx, ok := mm["hex"].(string); ok {
+					bsv, _ := hex.DecodeString(hx)
+					if nb, ok := byteSub[string(bsv)]; ok {
+						sc.Nondet[tag] = map[string]interface{}{"hex": fmt.Sprintf("%x", nb)}
+					}
 				}
 			}
 		}
@@ -646,7 +755,7 @@ func (e *Engine) scenario(s *State, cm *CachedModel, ob string) *Scenario {
 			sc.Bal = append(sc.Bal, BalRec{Table: parts[1], Amount: v.I.String()})
 			cur = &sc.Bal[len(sc.Bal)-1]
 		case parts[0] == "tbl" && strings.HasSuffix(en.Tag, "arg0") && cur != nil && v.S != nil:
-			k1 := *v.S
+			k1 := subBytes(*v.S)
 			if r, ok := modReal[k1]; ok {
 				k1 = r
 			}
@@ -656,7 +765,7 @@ func (e *Engine) scenario(s *State, cm *CachedModel, ob string) *Scenario {
 		case parts[0] == "blocked" && en.Kind == "app" && v.B != nil:
 			if *v.B && i+1 < len(s.W.Evals) {
 				if r2, ok := evalStr(i + 1); ok {
-					sc.Blocked = append(sc.Blocked, fmt.Sprintf("%x", r2))
+					sc.Blocked = append(sc.Blocked, fmt.Sprintf("%x", subBytes(r2)))
 				}
 			}
 		}
